@@ -51,3 +51,21 @@ REGISTRY.update({
         "note": _NOTE + "Sizes bounded by the cost of persim's pure-Python bottleneck.",
     },
 })
+
+REGISTRY.update({
+    "C14": {
+        "level": "Generated pairs/triples (0..10 points, sigma commensurate with the data over 7 decades) are compared with a float64 transcription of the "
+                 "kernel formula on squared distances, with dedicated generators for the delicate cases the statement names (reordered copies, copies "
+                 "perturbed by 1e-3..1e-15) and exact-arithmetic generators for diagonal-point and translation invariance; the Wasserstein stability bound "
+                 "is checked against an LP reference and against persim.wasserstein. Exploration: all clauses quantify over real-valued inputs.",
+        "technique": "property-based testing (Hypothesis): formula oracle on squares + metamorphic relations + stability inequality against an LP reference",
+        "note": _NOTE + "Sizes <= 10 points because the implementation is an O(mn) Python loop.",
+    },
+    "C15": {
+        "level": "Generated pairs/triples with coordinates of either sign are compared with a float64 transcription of the averaged 1-D transport cost "
+                 "(tolerance set by the implementation's float32 directions), plus symmetry, zero on reorderings, triangle inequality, diagonal points, "
+                 "diagonal translation into negative coordinates, scaling and SW <= 2 W1 against an LP reference.",
+        "technique": "property-based testing (Hypothesis): formula oracle + metamorphic relations + inequality against an LP reference",
+        "note": _NOTE + "Tolerance 5e-6 * sum|coordinates| because directions are float32 in the implementation.",
+    },
+})
